@@ -77,9 +77,20 @@ pub fn mk_err(v: usize, s: &Sym) -> RuntimeError {
         4 => RuntimeError::UnsupportedSignal(s.signal()),
         5 => RuntimeError::HandlerLockHeld(CTX),
         6 => RuntimeError::InternalSupervisor(s.string()),
-        _ => RuntimeError::Handler { ctx: CTX, err: s.string() },
+        7 => RuntimeError::Handler { ctx: CTX, err: s.string() },
+        _ => RuntimeError::External(Box::new(Marker(s.bytes[0]))),
     }
 }
+
+/// Payload of the `External` variant (variant 8): a harness-defined error carrying one symbolic byte.
+#[derive(Debug)]
+pub struct Marker(pub u8);
+impl std::fmt::Display for Marker {
+    fn fmt(&self, _: &mut std::fmt::Formatter<'_>) -> std::fmt::Result {
+        Ok(())
+    }
+}
+impl std::error::Error for Marker {}
 
 fn same_static(a: &'static str, b: &'static str) -> bool {
     a.as_ptr() == b.as_ptr() && a.len() == b.len()
@@ -96,6 +107,12 @@ pub fn same_err(v: usize, s: &Sym, e: &RuntimeError) -> bool {
         (5, RuntimeError::HandlerLockHeld(ctx)) => same_static(ctx, CTX),
         (6, RuntimeError::InternalSupervisor(m)) => s.is_string(m),
         (7, RuntimeError::Handler { ctx, err }) => same_static(ctx, CTX) && s.is_string(err),
+        // the box is the one that was given: same address-independent content (the marker byte),
+        // read through the concrete type the harness put in
+        (8, RuntimeError::External(b)) => {
+            let raw: *const (dyn std::error::Error + Send + Sync) = &**b;
+            unsafe { (*(raw as *const Marker)).0 == s.bytes[0] }
+        }
         _ => false,
     }
 }
@@ -266,6 +283,7 @@ c15_matrix!(c15_elevate_signal, 3, [(ELEVATE, 4)]);
 c15_matrix!(c15_elevate_lock_held, 3, [(ELEVATE, 5)]);
 c15_matrix!(c15_elevate_supervisor, 3, [(ELEVATE, 6)]);
 c15_matrix!(c15_elevate_handler, 3, [(ELEVATE, 7)]);
+c15_matrix!(c15_elevate_external, 3, [(ELEVATE, 8)]);
 c15_matrix!(c15_critical_exit, 3, [(CRIT_EXIT, 6)]);
 c15_matrix!(c15_critical_other, 3, [(CRIT_SEND, 4)]);
 c15_matrix!(c15_moved_then_critical, 3, [(MOVE_CRIT, 5)]);
